@@ -12,7 +12,12 @@
 //! most k non-default answers (`mc::envx::explore`).
 //!
 //! Part (c): pipeline-depth sweep over one stream connection (default
-//! configuration, default environment).
+//! configuration, default environment): n = 1..16 (quick) / 1..64 (thorough)
+//! queries written in one segment.
+//!
+//! Tiers: (a) quick = boundary offsets {-18,-17,-12,-11,-10,-1,0,+1} around
+//! {512,513,1232,4096,65535}, thorough = every offset -24..=+2 and six more
+//! advertised sizes; (b) quick <= 3 deviations, thorough <= 4.
 
 use domain::base::iana::{Class, Rcode};
 use domain::base::{Message, Name, Rtype, UnknownRecordData};
@@ -1951,12 +1956,13 @@ fn main() {
 
     // ---- part (c): pipeline depth -------------------------------------------
     let max_depth = if quick { 16 } else { 64 };
-    (1..=max_depth).into_par_iter().for_each(|n| {
+    // sequential, so that the smallest failing depth is the recorded replay
+    for n in 1..=max_depth {
         wd.enter(|| json!({"part": "depth", "n": n}));
         let mut ch = Chooser::default();
         run_stream(&mut ch, &col, Some(n));
         wd.leave();
-    });
+    }
 
     let b_execs = dg.executions + sx.executions + max_depth as u64;
     let evaluations = a_stats.evals() + b_execs;
